@@ -41,6 +41,9 @@ def quiet():
         logger.setLevel(logging.CRITICAL)
     except Exception:
         pass
+    if "nifty.re" in sys.modules:      # never import jax in a parent that forks
+        from nifty.re.logger import logger as rlogger
+        rlogger.setLevel(logging.CRITICAL)
     logging.getLogger("jax").setLevel(logging.ERROR)
 
 
